@@ -1,10 +1,10 @@
 // C10: in-process handlers get metadata, peer, deadline and cancellation, but
 // none of the caller's context values.
 //
-// Bounded-exhaustive: every subset of eight caller-context layers {string key,
+// Bounded-exhaustive: every subset of nine caller-context layers {string key,
 // struct key, outgoing metadata (NewOutgoingContext), incoming metadata, peer,
 // enclosing grpc.ServerTransportStream, appended outgoing pairs, context-typed
-// value} in two stacking orders x base context
+// value, peer with auth info} in two stacking orders x base context
 // {background, inside an in-process unary handler, inside an in-process stream
 // handler} x {deadline, none} x {unary, stream} x {with, without channel-level
 // server interceptors}. The oracle runs inside the real handler (and inside the
@@ -39,8 +39,10 @@ const guard = 30 * time.Second // hang guard only; nothing is decided by elapsed
 // outgoing-md is metadata.NewOutgoingContext alone (the caller keeps the map);
 // outgoing-appended adds AppendToOutgoingContext pairs (grpc merges those into a
 // fresh map, a different path); context-value is a caller value whose dynamic
-// type is itself a context.Context carrying a value of its own.
-var layerNames = []string{"string-key", "struct-key", "outgoing-md", "incoming-md", "peer", "transport-stream", "outgoing-appended", "context-value"}
+// type is itself a context.Context carrying a value of its own; peer-auth is a
+// caller peer that also carries authentication info (as the context of a
+// handler served over TLS would).
+var layerNames = []string{"string-key", "struct-key", "outgoing-md", "incoming-md", "peer", "transport-stream", "outgoing-appended", "context-value", "peer-auth"}
 
 type kase struct {
 	Base     string `json:"base"`   // background | in-unary-handler | in-stream-handler
@@ -87,6 +89,10 @@ type fakeAddr struct{ s string }
 func (a *fakeAddr) Network() string { return "fake" }
 func (a *fakeAddr) String() string  { return a.s }
 
+type fakeAuth struct{ s string }
+
+func (*fakeAuth) AuthType() string { return "fake-tls" }
+
 type fakeSTS struct{}
 
 func (*fakeSTS) Method() string               { return "/enclosing.Service/Method" }
@@ -112,7 +118,8 @@ type runState struct {
 
 	marker      *int
 	outerMarker *int
-	fakePeer    *peer.Peer
+	fakePeer    *peer.Peer   // the one visible in the caller's context (the last one applied)
+	fakePeers   []*peer.Peer // every peer the caller stored
 	fakeSTS     *fakeSTS
 	origOut     metadata.MD // the map the caller handed to metadata.NewOutgoingContext
 	values      []kv
@@ -208,6 +215,11 @@ func (st *runState) applyLayer(ctx context.Context, i int) context.Context {
 		return metadata.NewIncomingContext(ctx, metadata.Pairs("in-key", "i", "shared-key", "from-incoming"))
 	case "peer":
 		st.fakePeer = &peer.Peer{Addr: &fakeAddr{"198.51.100.7:4242"}}
+		st.fakePeers = append(st.fakePeers, st.fakePeer)
+		return peer.NewContext(ctx, st.fakePeer)
+	case "peer-auth":
+		st.fakePeer = &peer.Peer{Addr: &fakeAddr{"203.0.113.9:443"}, AuthInfo: &fakeAuth{"caller's TLS session"}}
+		st.fakePeers = append(st.fakePeers, st.fakePeer)
 		return peer.NewContext(ctx, st.fakePeer)
 	case "transport-stream":
 		st.fakeSTS = &fakeSTS{}
@@ -379,10 +391,13 @@ func (st *runState) static(ctx context.Context, where string) {
 	switch {
 	case !ok || p == nil || p.Addr == nil:
 		add("peer-missing", "no peer in the handler context")
-	case st.fakePeer != nil && (p == st.fakePeer || p.Addr == st.fakePeer.Addr):
-		add("peer-leak", "handler sees the peer stored in the caller's context: "+p.Addr.String())
+	case st.leaksPeer(p) != "":
+		add(st.leaksPeer(p), "handler's peer carries what the caller's context stored as peer: addr "+p.Addr.String()+fmt.Sprintf(", auth info %T", p.AuthInfo))
 	case !st.reference && (st.clientPeer.Addr == nil || p.Addr != st.clientPeer.Addr):
 		add("peer-not-inprocess", fmt.Sprintf("handler's peer %v is not the in-process peer reported to the caller (%v)", p.Addr, st.clientPeer.Addr))
+	}
+	if ok && p != nil && !st.reference && !reflect.DeepEqual(p.AuthInfo, st.clientPeer.AuthInfo) && st.leaksPeer(p) == "" {
+		add("peer-not-inprocess", fmt.Sprintf("handler's peer auth info (%T) is not the one reported to the caller through grpc.Peer (%T)", p.AuthInfo, st.clientPeer.AuthInfo))
 	}
 	if sts := grpc.ServerTransportStreamFromContext(ctx); sts == nil {
 		add("transport-stream-missing", "no ServerTransportStream in the handler context")
@@ -444,6 +459,19 @@ func (st *runState) static(ctx context.Context, where string) {
 			add("value-leak:private-key", "the outer caller's marker value is visible through ctx.Value")
 		}
 	}
+}
+
+// leaksPeer: does the handler's peer show anything of a peer the caller stored in its context?
+func (st *runState) leaksPeer(p *peer.Peer) string {
+	for _, f := range st.fakePeers {
+		if p == f || p.Addr == f.Addr {
+			return "peer-leak"
+		}
+		if f.AuthInfo != nil && p.AuthInfo == f.AuthInfo {
+			return "peer-authinfo-leak"
+		}
+	}
+	return ""
 }
 
 func (st *runState) handle(ctx context.Context) error {
